@@ -414,6 +414,11 @@ def flagsOf (x : Sx) : Option (List Bool) := (nats? x).map (·.map (· != 0))
 
 def kindOf : Sx → Option Codec.FKind
   | .list [.atom "rm", sk, op] => do some (.rmap ⟨← flagsOf sk, ← flagsOf op⟩)
+  | .list [.atom "ne", sk, op] => do some (.nested ⟨← flagsOf sk, ← flagsOf op⟩)
+  | .list [.atom "on", sk, op] => do some (.optNested ⟨← flagsOf sk, ← flagsOf op⟩)
+  | .atom "ord" => some .ord
+  | .atom "uarr" => some .uarr
+  | .atom "umap" => some .umap
   | v => do some (.flat ((← nat? v) != 0))
 
 def leafEntryOf : Sx → Option (Nat × Codec.PV)
@@ -434,13 +439,32 @@ def kvOf : Sx → Option (Nat × List Codec.PV)
   | .list [k, vs] => do some (← nat? k, ← valsOf vs)
   | _ => none
 
-def plOf : Sx → Option Codec.PL
-  | .list [.atom "Replace", .list l] => do some (.rm (.replace (← l.mapM kvOf)))
-  | .list [.atom "Modify", .list es] => do some (.rm (.modify (← es.mapM rchangeOf)))
-  | v => do some (.pv (← pvOf v))
+/-- the payload syntax depends on the field's kind (`Replace` / `Modify` are used by three diff types); returns the
+alternative (enum variant of the field) with the payload -/
+def plOf (k : Codec.FKind) (x : Sx) : Option (Nat × Codec.PL) :=
+  match k with
+  | .flat _ => (pvOf x).map fun p => (0, .pv p)
+  | .nested _ => match x with
+    | .list es => (es.mapM leafEntryOf).map fun es => (0, .ne es)
+    | _ => none
+  | .optNested _ => match x with
+    | .atom "none" => some (0, .on none)
+    | .list [.atom "some", .list es] => (es.mapM leafEntryOf).map fun es => (0, .on (some es))
+    | .list [.atom "full", vs] => (valsOf vs).map fun vs => (1, .full vs)
+    | _ => none
+  | .ord => (DOrd.scriptOf x).map fun s => (0, .sc s)
+  | .uarr => (udiffOf x).map fun d => (0, .ua d)
+  | .umap => (mdiffOf x).map fun d => (0, .um d)
+  | .rmap _ => match x with
+    | .list [.atom "Replace", .list l] => do some (0, .rm (.replace (← l.mapM kvOf)))
+    | .list [.atom "Modify", .list es] => do some (0, .rm (.modify (← es.mapM rchangeOf)))
+    | _ => none
 
-def entryOf : Sx → Option (Nat × Codec.PL)
-  | .list [j, v] => do some (← nat? j, ← plOf v)
+def entryOf (kinds : List Codec.FKind) : Sx → Option ((Nat × Nat) × Codec.PL)
+  | .list [j, v] => do
+    let j ← nat? j
+    let (a, p) ← plOf (kinds.getD j (.flat false)) v
+    some ((j, a), p)
   | _ => none
 
 def leafEntriesSx (es : List (Nat × Codec.PV)) : Sx := .list (es.map fun (j, p) => .list [ofNat j, pvSx p])
@@ -448,34 +472,49 @@ def valsSx (vs : List Codec.PV) : Sx := .list (vs.map pvSx)
 
 def plSx : Codec.PL → Sx
   | .pv p => pvSx p
+  | .ne es => leafEntriesSx es
+  | .on none => .atom "none"
+  | .on (some es) => tag "some" [leafEntriesSx es]
+  | .full vs => tag "full" [valsSx vs]
+  | .sc sc => DOrd.scriptSx sc
+  | .ua d => udiffSx d
+  | .um d => mdiffSx d
   | .rm (.replace l) => tag "Replace" [.list (l.map fun (k, vs) => .list [ofNat k, valsSx vs])]
   | .rm (.modify es) => tag "Modify" [.list (es.map fun c => match c with
       | .insert k vs => tag "Insert" [ofNat k, valsSx vs]
       | .remove k => tag "Remove" [ofNat k]
       | .change k d => tag "Change" [ofNat k, leafEntriesSx d])]
 
-def fieldCdc (f : Codec.Fmt) (kinds : List Codec.FKind) (j : Nat) : Codec.Cdc Codec.PL :=
-  Codec.plCdc f (kinds.getD j (.flat false))
+def fieldCdc (f : Codec.Fmt) (kinds : List Codec.FKind) (j alt : Nat) : Codec.Cdc Codec.PL :=
+  Codec.plCdc f (kinds.getD j (.flat false)) alt
 
-def encRefEntries (f : Codec.Fmt) (skips : List Bool) (kinds : List Codec.FKind) (es : List (Nat × Codec.PL)) : List Nat :=
-  Codec.encList (fun e => Codec.encDTag f (Codec.rank skips e.1) ++ Codec.plEncRef f (kinds.getD e.1 (.flat false)) e.2) es
+def widths (skips : List Bool) (kinds : List Codec.FKind) : List Nat :=
+  (skips.zip kinds).map fun (s, k) => if s then 0 else k.width
+
+def encRefEntries (f : Codec.Fmt) (ws : List Nat) (kinds : List Codec.FKind) (es : List ((Nat × Nat) × Codec.PL)) : List Nat :=
+  Codec.encList (fun e => Codec.encDTag f (Codec.rankW ws e.1.1 + e.1.2) ++ Codec.plEncRef f (kinds.getD e.1.1 (.flat false)) e.1.2 e.2) es
 
 def structEnc : List Sx → Sx
   | [f, sk, .list ks, .list es] =>
-    match fmtOf f, flagsOf sk, ks.mapM kindOf, es.mapM entryOf with
-    | some f, some sk, some ks, some es =>
-      tag "ok" [tag "owned" [ofNats (Codec.encEntries f sk (fieldCdc f ks) es)], tag "ref" [ofNats (encRefEntries f sk ks es)]]
-    | _, _, _, _ => tag "bad-req" []
+    match fmtOf f, flagsOf sk, ks.mapM kindOf with
+    | some f, some sk, some ks =>
+      match es.mapM (entryOf ks) with
+      | none => tag "bad-req" []
+      | some es =>
+        let ws := widths sk ks
+        tag "ok" [tag "owned" [ofNats (Codec.encEntriesW f ws (fieldCdc f ks) es)], tag "ref" [ofNats (encRefEntries f ws ks es)]]
+    | _, _, _ => tag "bad-req" []
   | _ => tag "bad-req" []
 
 def structDec : List Sx → Sx
   | [f, sk, .list ks, bs] =>
     match fmtOf f, flagsOf sk, ks.mapM kindOf, nats? bs with
     | some f, some sk, some ks, some bs =>
+      let ws := widths sk ks
       -- like `bincode::deserialize` and `DeBin::deserialize_bin`, trailing bytes are not an error
-      match Codec.decEntries f sk (fieldCdc f ks) bs with
-      | some (es, _) => tag "ok" [.list (es.map fun (j, p) => .list [ofNat j, plSx p]),
-                                   tag "reenc" [ofNats (Codec.encEntries f sk (fieldCdc f ks) es)]]
+      match Codec.decEntriesW f ws (fieldCdc f ks) bs with
+      | some (es, _) => tag "ok" [.list (es.map fun ((j, _), p) => .list [ofNat j, plSx p]),
+                                  tag "reenc" [ofNats (Codec.encEntriesW f ws (fieldCdc f ks) es)]]
       | _ => tag "reject" []
     | _, _, _, _ => tag "bad-req" []
   | _ => tag "bad-req" []
